@@ -152,6 +152,13 @@ def generate(run_seed, tier):
     for name in stalls:
         for _ in range(rf_.choice([0, 0, 1, 2])):
             stalls[name].append([rf_.randrange(0, int(T * 1e6) + 1), rf_.choice([10000, 500000, 5_000_000, 30_000_000])])
+    # pre-emption at a program point: the task is descheduled right at its nth
+    # seam of a given kind (between two seams of one loop pass)
+    op_stalls = []
+    for _ in range(rf_.choice([0, 0, 1, 2, 3])):
+        name = rf_.choice(["decoder", "decoder", "source"])
+        op = rf_.choice(["poll:raw", "recv:raw", "time", "send:ac", "sleep"]) if name == "decoder" else rf_.choice(["recv", "time", "value", "send:raw"])
+        op_stalls.append([name, op, rf_.choice([1, 2, 3, 5, 8, 13, 21, 34, 55, 89]), rf_.choice([2_000_000, 10_000_000, 30_000_000, 65_000_000])])
     tape = {}
     p_sw = rs.choice([0.0, 0.05, 0.2, 0.5])
     for k in range(6000):
@@ -159,7 +166,7 @@ def generate(run_seed, tier):
             tape[str(k)] = rs.randrange(1, 4)
     return {"rig": NAME, "prop": PROP, "fmt": fmt, "frames": frames, "deliveries": deliveries,
             "zmq_ids": rf_.random() < 0.7, "raw_cap": rf_.choice([1, 2, 8, 64]), "ac_cap": rf_.choice([1, 2, 8]),
-            "stalls": stalls, "tape": tape, "cpu_us": rs.choice([0, 1, 50]), "quantum_us": quantum,
+            "stalls": stalls, "op_stalls": op_stalls, "tape": tape, "cpu_us": rs.choice([0, 1, 50]), "quantum_us": quantum,
             "receiver": wd["receiver"], "aircraft": wd["aircraft"], "case": rw.choice(["lower", "mixed"]), "T": T,
             "disk": _gen_disk(rf_), "coalesce": rf_.random() < 0.5, "group": fmt}
 
@@ -199,6 +206,8 @@ class DecObserver(object):
         self.last_stamp = None
         self.premise_ok = True
         self.on_violation = None
+        self.sent = []           # batches the source put on the raw pipe (set by the rig)
+        self.bi = 0
 
     def add(self, clause, detail):
         if len(self.vio) < 4:
@@ -206,7 +215,29 @@ class DecObserver(object):
         if self.on_violation is not None:
             self.on_violation()   # no point in simulating on: end the run
 
-    def on_exit(self, inst, call, raised):
+    def _align(self, call):
+        """Map the content of one process_raw call onto the next batch(es) the
+        source sent; None if it is not exactly those."""
+        A, C = call["a"], call["c"]
+        units = []
+        na = nc = 0
+        j = self.bi
+        while j < len(self.sent) and (na < len(A) or nc < len(C) or not units):
+            b = self.sent[j]
+            ua = [[t, x] for t, x in zip(b["adsb_ts"], b["adsb_msg"])]
+            uc = [[t, x] for t, x in zip(b["commb_ts"], b["commb_msg"])]
+            if ua != [list(x) for x in A[na:na + len(ua)]] or uc != [list(x) for x in C[nc:nc + len(uc)]]:
+                return None
+            units.append({"a": ua, "c": uc})
+            na += len(ua)
+            nc += len(uc)
+            j += 1
+        if units and na == len(A) and nc == len(C):
+            self.bi = j
+            return units
+        return None
+
+    def on_exit(self, inst, call, raised, t_entry=None):
         ci = len(self.calls)
         self.calls.append(call)
         injected, self.fault_in_call = self.fault_in_call, False
@@ -219,27 +250,51 @@ class DecObserver(object):
                 return
             self.add("C17.a", "process_raw raised %s: %s on batch %d" % (type(raised).__name__, raised, ci))
             return
-        now = inst.t
-        stamps = [t for t, _ in call["a"] + call["c"]]
-        # premise of the statement: non-decreasing stamps, tnow >= stamps
-        for lst in (call["a"], call["c"]):
-            ts = [t for t, _ in lst]
-            if any(b < a for a, b in zip(ts, ts[1:])):
+        # "now" for the staleness clauses is the real (simulated) time: the
+        # clock reading the call used, or the time the call was entered if that is
+        # later (a loop that hands process_raw a stale reading is judged by the
+        # true time)
+        now = max(inst.t, t_entry) if t_entry is not None else inst.t
+        if t_entry is not None and t_entry - inst.t > 0.5:
+            self.stats.c["probe.stale_clock_reading_over_0.5s"] += 1
+        # premise of the statement, checked on the ground truth (what the source
+        # sent): non-decreasing stamps, tnow >= stamps
+        units = None
+        if not self.faults_fired:
+            units = self._align(call)
+            if units is None:
+                self.add("C17.g", "batch %d: process_raw was handed %d+%d messages that are not the next batch(es) the source sent (reordered, repeated or dropped)" % (
+                    ci, len(call["a"]), len(call["c"])))
+                return
+        if units is None:
+            units = [call]   # after an injected fault the loop legitimately re-processes older batches
+        for u in units:
+            stamps = [t for t, _ in u["a"] + u["c"]]
+            for lst in (u["a"], u["c"]):
+                ts = [t for t, _ in lst]
+                if any(b < a for a, b in zip(ts, ts[1:])):
+                    self.premise_ok = False
+            if stamps and max(stamps) > now + 1e-9:
                 self.premise_ok = False
-        if stamps and max(stamps) > now + 1e-9:
-            self.premise_ok = False
-        if stamps and not self.faults_fired and min(stamps) < (self.last_stamp if self.last_stamp is not None else min(stamps)) - 1e-9:
-            # (after an injected fault the loop legitimately re-processes older batches)
-            self.premise_ok = False
-        if stamps:
-            self.last_stamp = max(stamps) if self.last_stamp is None else max(self.last_stamp, max(stamps))
+            if stamps and min(stamps) < (self.last_stamp if self.last_stamp is not None else min(stamps)) - 1e-9:
+                # the retry after an injected fault re-feeds older batches: from
+                # then on process_raw's premise (non-decreasing stamps) is gone and
+                # the staleness clauses say nothing; C17.a and C17.g stay on
+                self.premise_ok = False
+            if stamps:
+                self.last_stamp = max(stamps) if self.last_stamp is None else max(self.last_stamp, max(stamps))
         table = inst.get_aircraft()
         keys = set(str(k).upper() for k in table)
         if not self.premise_ok:
             self.stats.c["premise_false_runs"] += 1
             return
-        self.model.feed(call)
-        self.model_hi.feed(call)
+        if len(units) > 1:
+            self.stats.c["probe.call_covering_several_sent_batches"] += 1
+        for u in units:
+            # delivery-unit granularity: a reply counts only if its aircraft was
+            # heard in ADS-B in an earlier unit or in the same one
+            self.model.feed(u)
+            self.model_hi.feed(u)
         vs, labels = self.model.judge(keys, now)
         vs_hi, _ = self.model_hi.judge(keys, now)
         for clause, detail in vs:
@@ -308,7 +363,8 @@ def execute(sc, keep_log=False):
     npieces = len(dl)
     T_us = max(dl[-1][0], int(sc.get("T", 1) * 1e6))
     q = max(1, sc.get("quantum_us", 1000))
-    cap = 20000 + 40 * npieces + 30 * len(sc["frames"]) + int(12 * (T_us + 40_000_000) / q)
+    extra_us = sum(d for _, _, _, d in sc.get("op_stalls", [])) + sum(d for lst in sc.get("stalls", {}).values() for _, d in lst)
+    cap = 20000 + 40 * npieces + 30 * len(sc["frames"]) + int(12 * (T_us + 40_000_000 + extra_us) / q)
     epoch0 = 0.0 if sc["fmt"] == "skysense" else EPOCH0
     k = Kernel(tape=sc.get("tape"), step_cap=cap, t_end_us=None, cpu_us=sc.get("cpu_us", 0),
                sleep_quantum_us=q, epoch0=epoch0, keep_log=keep_log)
@@ -331,6 +387,7 @@ def execute(sc, keep_log=False):
     sent_batches = []
     raw_pipe.tap = lambda blob: sent_batches.append(pickle.loads(blob))
     obs = DecObserver(sc, dec, stats)
+    obs.sent = sent_batches
     obs.on_violation = lambda: k._begin_stop("violation")
     c16.on_violation = lambda: k._begin_stop("violation")
 
@@ -344,6 +401,7 @@ def execute(sc, keep_log=False):
         def process_raw(self_, adsb_ts, adsb_msg, commb_ts, commb_msg, tnow=None):
             call = {"a": [[t, x] for t, x in zip(adsb_ts, adsb_msg)], "c": [[t, x] for t, x in zip(commb_ts, commb_msg)]}
             raised = None
+            t_entry = k.epoch0 + k.now_us / 1e6
             try:
                 return super(ObsDecode, self_).process_raw(adsb_ts, adsb_msg, commb_ts, commb_msg, tnow)
             except Exception as ex:
@@ -351,7 +409,7 @@ def execute(sc, keep_log=False):
                 raise
             finally:
                 if not k.stopping:
-                    obs.on_exit(self_, call, raised)
+                    obs.on_exit(self_, call, raised, t_entry)
 
     source = ObsSource("sim", 30005, sc["fmt"])
     disk = sc.get("disk")
@@ -422,6 +480,9 @@ def execute(sc, keep_log=False):
     for name, lst in sc.get("stalls", {}).items():
         for at, dur in lst:
             k.stall(tasks[name], at + off0, dur)
+
+    for name, op, nth, dur in sc.get("op_stalls", []):
+        k.stall_at_op(tasks[name], op, nth, dur)
 
     def quiescent():
         if not (state["fed"] == npieces and not net.inq and not raw_pipe.q and not ac_pipe.q):
@@ -537,7 +598,7 @@ def focus(sc, violation):
 def shrink(sc, fails, budget_n=200):
     b = Budget(budget_n)
     sc = dict(sc)
-    for key, val in (("tape", {}), ("stalls", {}), ("cpu_us", 0), ("raw_cap", 64), ("ac_cap", 8), ("zmq_ids", False), ("disk", None)):
+    for key, val in (("tape", {}), ("stalls", {}), ("op_stalls", []), ("cpu_us", 0), ("raw_cap", 64), ("ac_cap", 8), ("zmq_ids", False), ("disk", None)):
         if sc.get(key) != val and b.take():
             c = dict(sc)
             c[key] = val
